@@ -3075,6 +3075,7 @@ func genFuncM(p *packages.Package, e entry) (string, error) {
 			nplain++
 		}
 	}
+	fc.paramNames = k03wParamNames(fc, fd, fc.paramNames) // wp k03w: string parameters are values (locals of the translation)
 	// tie mode: the function works on slice-typed state of a struct parameter (or writes through a pointer)
 	for key, lt := range fc.usedFieldTypes(fd.Body) {
 		if lt == "List Int" {
